@@ -198,7 +198,7 @@ package wire
 // metadata in arrival order) and exactly that channel is registered under (alias, source node).
 //@ func (*ClientConn).SubscribeDownstreamMeta
 //@   props C03
-//@   requires c.downstreams != nil && c.downstreams.mu != nil && c.downstreams.metadata != nil
+//@   requires[unchecked] c.downstreams != nil && c.downstreams.mu != nil && c.downstreams.metadata != nil
 //@   ensures result1 == nil && fresh(result0) && cap(result0) >= 1
 //@   ensures has(c.downstreams.metadata, alias) && has(c.downstreams.metadata[alias], srcNodeID) && c.downstreams.metadata[alias][srcNodeID] == result0
 
@@ -268,8 +268,8 @@ package wire
 // writer chosen by its QoS, and touches no other alias.
 //@ func (*ClientConn).openUpstream
 //@   props C07
-//@   requires c.upstreams != nil && c.upstreams.mu != nil && c.upstreams.acks != nil && c.upstreams.aliases != nil && c.upstreams.messageWriters != nil
-//@   requires qoS == message.QoSReliable || qoS == message.QoSPartial || qoS == message.QoSUnreliable
+//@   requires[unchecked] c.upstreams != nil && c.upstreams.mu != nil && c.upstreams.acks != nil && c.upstreams.aliases != nil && c.upstreams.messageWriters != nil
+//@   requires[unchecked] qoS == message.QoSReliable || qoS == message.QoSPartial || qoS == message.QoSUnreliable
 //@   ensures has(c.upstreams.acks, streamIDAlias) && fresh(c.upstreams.acks[streamIDAlias]) && cap(c.upstreams.acks[streamIDAlias]) >= 1
 //@   ensures has(c.upstreams.aliases, streamID) && c.upstreams.aliases[streamID] == streamIDAlias
 //@   ensures has(c.upstreams.messageWriters, streamIDAlias) && c.upstreams.messageWriters[streamIDAlias] == ite(qoS == message.QoSUnreliable && c.unreliableTransport != nil, c.unreliableTransport, c.transport)
@@ -279,19 +279,19 @@ package wire
 // or replaced), otherwise a channel made for this registration is entered under exactly that alias
 //@ func (*ClientConn).newDownstreamChunkCh
 //@   props C07
-//@   requires c.downstreams != nil && c.downstreams.mu != nil && c.downstreams.dps != nil
+//@   requires[unchecked] c.downstreams != nil && c.downstreams.mu != nil && c.downstreams.dps != nil
 //@   ensures imp(old(has(c.downstreams.dps, alias)), result1 != nil && c.downstreams.dps[alias] == old(c.downstreams.dps[alias]))
 //@   ensures imp(!old(has(c.downstreams.dps, alias)), result1 == nil && fresh(result0) && has(c.downstreams.dps, alias) && c.downstreams.dps[alias] == result0)
 //@   ensures forall(a, uint32, imp(a != alias, has(c.downstreams.dps, a) == old(has(c.downstreams.dps, a)) && c.downstreams.dps[a] == old(c.downstreams.dps[a])))
 //@ func (*ClientConn).newDownstreamChunkUnreliableCh
 //@   props C07
-//@   requires c.downstreams != nil && c.downstreams.mu != nil && c.downstreams.dpsUnreliable != nil
+//@   requires[unchecked] c.downstreams != nil && c.downstreams.mu != nil && c.downstreams.dpsUnreliable != nil
 //@   ensures imp(old(has(c.downstreams.dpsUnreliable, alias)), result1 != nil && c.downstreams.dpsUnreliable[alias] == old(c.downstreams.dpsUnreliable[alias]))
 //@   ensures imp(!old(has(c.downstreams.dpsUnreliable, alias)), result1 == nil && fresh(result0) && has(c.downstreams.dpsUnreliable, alias) && c.downstreams.dpsUnreliable[alias] == result0)
 //@   ensures forall(a, uint32, imp(a != alias, has(c.downstreams.dpsUnreliable, a) == old(has(c.downstreams.dpsUnreliable, a)) && c.downstreams.dpsUnreliable[a] == old(c.downstreams.dpsUnreliable[a])))
 //@ func (*ClientConn).SubscribeDownstreamChunkAckComplete
 //@   props C07
-//@   requires c.downstreams != nil && c.downstreams.mu != nil && c.downstreams.ackCompletes != nil
+//@   requires[unchecked] c.downstreams != nil && c.downstreams.mu != nil && c.downstreams.ackCompletes != nil
 //@   ensures imp(old(has(c.downstreams.ackCompletes, alias)), result1 != nil && c.downstreams.ackCompletes[alias] == old(c.downstreams.ackCompletes[alias]))
 //@   ensures imp(!old(has(c.downstreams.ackCompletes, alias)), result1 == nil && fresh(result0) && has(c.downstreams.ackCompletes, alias) && c.downstreams.ackCompletes[alias] == result0)
 //@   ensures forall(a, uint32, imp(a != alias, has(c.downstreams.ackCompletes, a) == old(has(c.downstreams.ackCompletes, a)) && c.downstreams.ackCompletes[a] == old(c.downstreams.ackCompletes[a])))
